@@ -67,3 +67,32 @@ Theorem C02_finished_blocks_wellformed : forall w es, bw_ok w es -> 1 <= bw_inte
   wfblock (mk_block (payload_of es) (rev (bw_offsets w))) es (0%nat :: ridx_gen (bw_interval w) 0 0 es).
 Proof. exact finished_block_wf. Qed.
 Print Assumptions C02_finished_blocks_wellformed.
+
+(* ================= the whole cursor, any index depth: seeks from ANY state (fresh, reset, positioned,
+   or after an operation that returned None) return the exact ceiling / floor / match of the content
+   (wf_store, content, Rel: see C03.v) ================= *)
+From Grenad.proofs Require Import ReaderRefine.
+
+Theorem C02_seeks : forall ld root levels bstore, wf_store ld root levels bstore ->
+  forall p st q, Rel root bstore levels p st ->
+  let es := content root levels bstore in
+  (exists st' r, cstep ld root levels st (OGe q) = Done (st', r) /\
+     r = match ceil_idx es q 0 with Some (_, e) => Some e | None => None end) /\
+  (exists st' r, cstep ld root levels st (OLe q) = Done (st', r) /\
+     r = match floor_idx es q 0 None with Some (_, e) => Some e | None => None end) /\
+  (exists st' r, cstep ld root levels st (OEq q) = Done (st', r) /\
+     r = match find_idx es q with Some (_, e) => Some e | None => None end).
+Proof.
+  intros ld root levels bstore W p st q HR. cbv zeta.
+  assert (A : forall o, relative_op o = false ->
+            exists st' r, cstep ld root levels st o = Done (st', r) /\ res_ok (snd (aspec (content root levels bstore) p o)) r).
+  { intros o Ho. destruct (R_step ld root levels bstore W p st o HR (fun _ => Ho)) as (st' & r & E & _ & Hr & _). eauto. }
+  split; [|split].
+  - destruct (A (OGe q) eq_refl) as (st' & r & E & Hr). exists st', r. split; [exact E|]. cbn [aspec] in Hr.
+    destruct (ceil_idx _ q 0) as [[i e]|]; exact Hr.
+  - destruct (A (OLe q) eq_refl) as (st' & r & E & Hr). exists st', r. split; [exact E|]. cbn [aspec] in Hr.
+    destruct (floor_idx _ q 0 None) as [[i e]|]; exact Hr.
+  - destruct (A (OEq q) eq_refl) as (st' & r & E & Hr). exists st', r. split; [exact E|]. cbn [aspec] in Hr.
+    destruct (find_idx _ q) as [[i e]|]; exact Hr.
+Qed.
+Print Assumptions C02_seeks.
